@@ -70,6 +70,15 @@ func probeLowercaseNames(c *core.Ctx, gr *genRun) {
 	}), twoOpts())
 	gr.probe("R3", "upper-case field names and lower-case record name", geneval.FileSpec{GoPackage: "example.com/x/gen", Structs: []geneval.Value{
 		b.Struct("rec", false, 0, geneval.FieldSpec{Name: "Field", Shape: S("string")}, geneval.FieldSpec{Name: "other", Shape: S("guid")})}}, twoOpts())
+	gr.probe("R3", "type and field names starting with a non-ASCII letter", geneval.FileSpec{GoPackage: "example.com/x/gen", Structs: []geneval.Value{
+		b.Struct("Éclair", false, 0, geneval.FieldSpec{Name: "ärger", Shape: S("string")}, geneval.FieldSpec{Name: "Ñu", Shape: S("int32")}),
+		b.Struct("Uses", true, 0, geneval.FieldSpec{Name: "é", Shape: geneval.Arr(S("Éclair"))})}}, geneval.AllOptions())
+	depr := b.Field(geneval.FieldSpec{Name: "old", Shape: S("int32"), Deprecated: true})
+	depr.Set("DeprecatedMessage", "line one\nline two")
+	stDepr := b.Struct("Dep", false, 0)
+	stDepr.Set("Fields", geneval.List(depr))
+	enDepr := b.Enum("DepE", "uint32", true, geneval.OptSpec{Name: "A", UintValue: 1, Deprecated: true})
+	gr.probe("R3", "deprecation message with a line break", geneval.FileSpec{GoPackage: "example.com/x/gen", Structs: []geneval.Value{stDepr}, Enums: []geneval.Value{enDepr}}, twoOpts())
 	gr.probe("R3", "readonly struct with upper-case field names", geneval.FileSpec{GoPackage: "example.com/x/gen", Structs: []geneval.Value{
 		b.Struct("Ro", true, 0, geneval.FieldSpec{Name: "Field", Shape: S("string")}, geneval.FieldSpec{Name: "other", Shape: geneval.Arr(S("date"))})}}, twoOpts())
 }
